@@ -253,6 +253,8 @@ def _exit_obligations(ex, ctx, fi, contract, e, deferred, ghost_env, rty, n_exit
                         ctx.obls.append(Obligation(f"raises/{label}/must-raise", "post", pc2, z3.simplify(z3.Not(c)), where, {"text": ast.unparse(when)}))
             finally:
                 e.heap = old_heap
+    if hasattr(ex, "family_obligations") and not raised:
+        ctx.obls.extend(ex.family_obligations(e, where))
     # frame: parameters' roots unchanged unless listed in modifies
     mod_roots = []
     for d in deferred:
